@@ -40,7 +40,8 @@ FINGERPRINTS = [
 
 
 def g_name(s):
-    return '[' + ';'.join(str(ord(c)) for c in s) + ']'
+    assert all(32 <= ord(c) < 127 and c != '"' for c in s), s
+    return '(NM "%s")' % s
 
 
 def g_z(n):
@@ -57,8 +58,8 @@ def g_ident(task, alg, aver, sv, sver, vn, vver):
         g_name(vn), g_ver(vver))
 
 
-def s_name(codes):
-    return ''.join(chr(c) for c in codes)
+def s_name(x):
+    return x if isinstance(x, str) else ''.join(chr(c) for c in x)
 
 
 class Codes:
@@ -189,11 +190,11 @@ def canon_model(hop, subobs):
     def tag(x):
         return x[0] if isinstance(x, tuple) else x
 
-    if any(tag(x) == 'RExc' for x in reps):
+    if any(tag(x) == 'PExc' for x in reps):
         r = ('exc',)
     elif k == 'upd':
-        flags = tuple(x[1] for x in reps if tag(x) == 'RNew')
-        r = ('upd', flags, any(tag(x) == 'RCrash' for x in reps))
+        flags = tuple(x[1] for x in reps if tag(x) == 'PNew')
+        r = ('upd', flags, any(tag(x) == 'PCrash' for x in reps))
     elif k == 'load':
         vals = []
         for x in reps:
@@ -737,10 +738,11 @@ def model_eval(ctx, hist_list):
         subs = [expand(hop, codes) for hop in h]
         flat = [o for s in subs for o in s]
         ops = '[' + '; '.join(flat) + ']'
-        exprs.append('(run_obs idig db0 %s, final idig db0 %s)' % (ops, ops))
+        exprs.append('run_io %s' % ops)
         plans.append((codes, subs))
-    vals = ctx.coq_eval(['DV.Model.Catalogue', 'DV.Model.Store'], exprs,
-                        z_scope=False, chunk=8)
+    vals = ctx.coq_eval(['DV.Model.Catalogue', 'DV.Model.Store',
+                         'DV.Model.StoreIO'], exprs, z_scope=False, chunk=10,
+                        preamble='Open Scope string_scope.')
     out = []
     for h, (codes, subs), v in zip(hist_list, plans, vals):
         mobs, fin = v
@@ -888,15 +890,15 @@ def g_tbl(items):
 def unit_expr(u):
     f = u['f']
     if f == 'construct':
-        return 'construct %s %s %s' % (g_name(u['name']), g_opt(u['parent'], str),
+        return 'PS (construct %s %s %s)' % (g_name(u['name']), g_opt(u['parent'], str),
                                        g_opt(u['ver'], g_ver))
     if f == 'dissect':
-        return 'dissect %s' % g_name(u['s'])
+        return 'option_map (fun x => let \'(p, n, v) := x in (p, PS n, v)) (dissect %s)' % g_name(u['s'])
     if f == 'subset':
-        return 'subset %s %s [%s]' % (g_tbl(u['table']), g_name(u['name']),
+        return 'map (fun e => (PS (fst e), snd e)) (subset %s %s [%s])' % (g_tbl(u['table']), g_name(u['name']),
                                       ';'.join(str(p) for p in u['parents']))
     if f == 'indexed':
-        return 'indexed %s' % g_tbl(u['table'])
+        return 'map PS (indexed %s)' % g_tbl(u['table'])
     if f == 'psubset':
         return 'map fst (psubset [%s] %s)' % (
             ';'.join('((%s,%d,%d,%d,%d,%d),(0)%%Z)' % ((g_z(k[0]),) + tuple(k[1:]))
@@ -945,8 +947,9 @@ def units_study(ctx):
     that are not plain); returns (n, first mismatch or None, oracle hits)'''
     units = unit_cases(ctx)
     impl = ctx.harness('drive_store.py', {'units': units})['units']
-    vals = ctx.coq_eval(['DV.Model.Catalogue'], [unit_expr(u) for u in units],
-                        z_scope=False)
+    vals = ctx.coq_eval(['DV.Model.Catalogue', 'DV.Model.Store',
+                         'DV.Model.StoreIO'], [unit_expr(u) for u in units],
+                        z_scope=False, preamble='Open Scope string_scope.')
     bad = None
     hits = []
     for u, r, v in zip(units, impl, vals):
